@@ -122,9 +122,11 @@ func (fs *FileSink) Process(_ context.Context, e *Event) (*Event, error) {
 	}
 
 	if n, err := reader.WriteTo(writer); err == nil {
+		verifPoint("fs.written", fs, n)
 		// Sinks are leafs, so do not return the event, since nothing more can
 		// happen to it downstream.
 		fs.BytesWritten += n
+		verifPoint("fs.counted", fs)
 		return nil, nil
 	}
 
@@ -235,6 +237,7 @@ func (fs *FileSink) open() error {
 	// Reset file related statistics
 	fs.LastCreated = createTime
 	fs.BytesWritten = 0
+	verifPoint("fs.opened", fs, newFileName)
 
 	return nil
 }
@@ -256,6 +259,7 @@ func (fs *FileSink) rotate() error {
 			return err
 		}
 		fs.f = nil
+		verifPoint("fs.r.closed", fs)
 
 		// Move current log file to a timestamped file.
 		if fs.TimestampOnlyOnRotate {
@@ -266,6 +270,7 @@ func (fs *FileSink) rotate() error {
 			if err := os.Rename(oldPath, newPath); err != nil {
 				return fmt.Errorf("failed to rotate log file: %v", err)
 			}
+			verifPoint("fs.r.renamed", fs, rotateFileName)
 		}
 
 		if err := fs.pruneFiles(); err != nil {
@@ -302,6 +307,7 @@ func (fs *FileSink) pruneFiles() error {
 		if err := os.Remove(matches[i]); err != nil {
 			return err
 		}
+		verifPoint("fs.r.pruned", fs, matches[i])
 	}
 	return nil
 }
